@@ -215,7 +215,15 @@ impl Matrix {
     }
 
     /// Fill the matrix with a constant value.
+    ///
+    /// Every writable entry is set (all entries of `Full` storage, the in-band entries of `Banded`
+    /// storage). `Identity` storage has no writable entry and is left as it is: overwriting its
+    /// two backing cells would change what every entry reads while the matrix still counts as the
+    /// identity in `is_identity` and in arithmetic.
     pub fn fill(&mut self, value: Float) {
+        if matches!(self.storage, MatrixStorage::Identity) {
+            return;
+        }
         self.data.fill(value);
     }
 }
